@@ -106,7 +106,9 @@ Inductive outcome :=
 | ODone (srv_resumed cli_resumed : bool)
 | OAbortS (alert : Z)      (* server sends the alert *)
 | OAbortC (alert : Z)      (* client sends the alert *)
-| OClientErr.              (* the client API raises ValueError before sending anything *)
+| OClientErr               (* the client API raises ValueError before sending anything *)
+| OSuspended.              (* full handshake held up before the client's ChangeCipherSpec/Finished reaches
+                              the server (transport keeps it back); never completed *)
 
 Section AEAD.
 Variable blob : Type.
@@ -139,6 +141,8 @@ Record cparams := {
   cp_srv : Z; cp_maxv : Z; cp_suites : list Z; cp_ems : bool; cp_etm : bool;
   cp_sni : Z; cp_srp : Z; cp_ccert : Z;
   cp_offer : option Z;     (* index of the client Session object passed as session= *)
+  cp_half : Z;             (* <> 0: the transport holds back the client's second flight (1: all of it,
+                              2: from the ChangeCipherSpec on) of a full TLS <= 1.2 handshake *)
   o_acc : list Z;          (* suites the server would accept for the negotiated version *)
   o_fsuite : Z;            (* suite a full negotiation selects (0 = none in common) *)
   o_fcbc : bool;           (* that suite is a CBC suite *)
@@ -524,6 +528,16 @@ Definition conn_delta (w : world) (cp : cparams) (sv : server) : delta :=
                             s_ccert := cp_ccert cp; s_origin := ci |} in
             let newc := {| c_sess := cview; c_res := true; c_t10 := tks; c_t13 := []; c_rms := 0 |} in
             let st2 := if sv_usecache cfg then cache_put cfg now view st1 else st1 in
+            if nz (cp_half cp) then
+              (* suspended before the server has seen the client's Finished: NOTHING of this handshake is
+                 resumable -- no cache entry, no ticket.  The (deviating) client already knows the session ID
+                 and the master secret; that knowledge is the new client object. *)
+              {| d_store := Some st1; d_used := used;
+                 d_newc := Some {| c_sess := cview; c_res := true; c_t10 := []; c_t13 := []; c_rms := 0 |};
+                 d_conn := {| cr_srv := cp_srv cp; cr_sobj := None; cr_cobj := None; cr_open := true;
+                              cr_ks := false; cr_kc := false |};
+                 d_log := log0 v (Some h) None OSuspended None None None; d_issue := None; d_bump := 4 |}
+            else
             {| d_store := Some st2; d_used := used; d_newc := Some newc;
                d_conn := {| cr_srv := cp_srv cp;
                             cr_sobj := if sv_usecache cfg then Some sid else None;
@@ -697,6 +711,7 @@ Definition observe {blob} (r : cres blob) : list Z :=
   | OAbortS a => [1; a]
   | OAbortC a => [2; a]
   | OClientErr => [3; 0]
+  | OSuspended => [4; 0]
   end.
 
 Fixpoint obs_eqb (a b : list (list Z)) : bool :=
